@@ -9,12 +9,12 @@ with the source; refused requests yield one errors-only response without startin
 import asyncio
 import copy
 
-from simv.actors import ReqCtx, Runtime, canon, forget
+from simv.actors import consume_args, ReqCtx, Runtime, canon, forget
 from simv.checks.c15 import describe_diff, same_response
 from simv.checks.common import COMMON_ASSUMPTIONS, base_result, pick_engine_cfg, trace_tail
 from simv.gen.document import gen_document, gen_variables
 from simv.gen.schema import gen_schema
-from simv.harness import Out, cook_engine, corrupt_text, execute_once, pick_scheduler, run_digest
+from simv.harness import take_response, Out, cook_engine, corrupt_text, execute_once, pick_scheduler, run_digest
 from simv.model.document import print_document
 from simv.model.exec import RefExec, enumerate_fault_sites
 from simv.model.schema import print_sdl
@@ -157,7 +157,8 @@ def run_one(seed, preset=None, tier="quick", want_case=False):
                 kw = {"initial_value": s.initial} if s.initial is not None else {}
                 async for resp in engine.subscribe(s.text, operation_name=s.op_name, context=ctx, variables=copy.deepcopy(s.variables), **kw):
                     loop.ev("response", s.rid, len(s.responses))
-                    s.responses.append(resp)
+                    consume_args(s.rt)  # the event has been answered: its resolvers' (and the source's) argument objects are the application's to reuse
+                    s.responses.append(take_response(resp))
                     await loop.point(("consumer", s.rid, len(s.responses)))
             except Exception as e:  # noqa: BLE001
                 s.exc = e
